@@ -126,3 +126,36 @@ def family_inputs(kind, n, kmax):
     K = z3.Int("k")
     ks, nq2, dt2 = allsat([K], [K >= 0, K <= kmax])
     return [(kind, k[0], t) for k in ks for t in tails], nq1 + nq2, dt1 + dt2
+
+
+def _cube_job(job):
+    import sys
+    sys.path.insert(0, "/verif")
+    builder, args, nsplit, cube = job
+    vs, cons = builder(*args)
+    models, nq, dt = allsat(vs, cons + [v == x for v, x in zip(vs[:nsplit], cube)])
+    return models, nq, dt
+
+
+def allsat_split(builder, args, nsplit):
+    """cube-and-conquer AllSAT: stage 1 enumerates the projections on the first `nsplit` variables (blocking clauses over those only),
+    stage 2 enumerates every cube in parallel.  `builder(*args)` must return (vars, constraints) and be importable (it is re-run in workers)."""
+    from .par import pmap, Crashed
+    vs, cons = builder(*args)
+    cubes, nq, dt = allsat(vs[:nsplit], cons)
+    out = []
+    for r in pmap(_cube_job, [(builder, args, nsplit, c) for c in cubes]):
+        if isinstance(r, Crashed):
+            raise RuntimeError(f"allsat cube crashed: {r.why}")
+        out += r[0]
+        nq += r[1]
+        dt += r[2]
+    return out, nq, dt
+
+
+def pairings(n):
+    """every valid pairing table on n positions (AllSAT; cube-and-conquer on p[0], p[1] for n >= 8)"""
+    if n < 8:
+        P, cons = pairing_vars(n)
+        return allsat(P, cons)
+    return allsat_split(pairing_vars, (n,), 2)
